@@ -892,6 +892,23 @@ def ep_universal(prog: Program) -> RuleResult:
                 "a result that leaves a free variable of the condition unbound is completed before it counts as a candidate",
                 "a result of the condition that leaves a free variable unbound (the left-true result of or_(v.n > 1, z.m > 1) has no z) is kept as a candidate for all values of that variable: "
                 "an(entity(z, for_all(v, or_(v.n > 1, z.m > 1)))) over v in {5, 0}, z in {5, 0} returns [5, 0, 5] instead of [5]")
+    # the variables for_all judges its condition per value of are the *free* ones: a plain variable that an exists / for_all inside the
+    # condition quantifies is not among them - carried along as a candidate binding it turns "for all a there is a b" into "there is a b for all a"
+    from ..model import walk_local as _wl
+    fa_ = prog.cls("symbolic.ForAll")
+    ids_ = prog.lookup(fa_.qual, "condition_unique_variable_ids")
+    if ids_ is None:
+        raise AnalysisError("EP-UNIVERSAL: ForAll.condition_unique_variable_ids vanished")
+    sets_ = {x.targets[0].id for x in _wl(ids_.node) if isinstance(x, ast.Assign) and len(x.targets) == 1 and isinstance(x.targets[0], ast.Name)
+             and "QuantifiedConditional" in src(x.value) and "variable" in src(x.value)}
+    excluded = any(isinstance(y, ast.Compare) and isinstance(y.ops[0], ast.NotIn) and isinstance(y.comparators[0], ast.Name) and y.comparators[0].id in sets_
+                   for x in _wl(ids_.node) if isinstance(x, ast.comprehension) for t in x.ifs for y in ast.walk(t))
+    excluded = excluded or any(isinstance(x, ast.Call) and isinstance(x.func, ast.Attribute) and x.func.attr in ("difference", "difference_update", "__sub__") and any(isinstance(a, ast.Name) and a.id in sets_ for a in x.args)
+                               for x in _wl(ids_.node))
+    r.check(excluded, "ForAll.condition_unique_variable_ids#quantified-below-are-not-free", f"{ids_.module.relpath}:{ids_.node.lineno}", f"quantified sets: {sorted(sets_)}",
+            "variables quantified by an exists / for_all inside the condition are left out",
+            "the variables a nested exists / for_all quantifies count as free variables of the condition: for_all(a, exists(b, a.v == b.v)) keeps the b found for the first a as a candidate and "
+            "demands the same b for every a (no answer although every a has a partner)")
     return r
 
 
